@@ -449,6 +449,89 @@ func embedProp(c EmbedCase) error {
 	return nil
 }
 
+// ---------------------------------------------------------------- several timeout epochs on one decoder
+
+// EpochCase: segments of input, each followed by an expiry of the escape timeout,
+// on ONE decoder. Once the timeout has expired nothing may remain - neither
+// bytes nor modifier state - so the events must equal those of each segment
+// decoded on a fresh decoder.
+type EpochCase struct {
+	Entry string   `json:"entry"`
+	Segs  [][]byte `json:"segments"`
+}
+
+func genEpoch(t *rapid.T) EpochCase {
+	c := EpochCase{Entry: rapid.SampledFrom(entryNames).Draw(t, "entry")}
+	e, err := info(c.Entry)
+	if err != nil {
+		t.Fatalf("%v", err)
+	}
+	n := rapid.IntRange(2, 5).Draw(t, "nseg")
+	for i := 0; i < n; i++ {
+		var seg []byte
+		switch rapid.IntRange(0, 6).Draw(t, "segkind") {
+		case 0:
+			seg = []byte("\x1b\x1b")
+		case 1:
+			seg = []byte("\x1b")
+		case 2:
+			seg = []byte(rapid.SampledFrom([]string{"\x1b[", "\x1bO", "\x1b[<0;1", "\x1b\x1b[", "\x1b]52;c;QQ", "a\x1b", "\x1b\x1bO"}).Draw(t, "partial"))
+		default:
+			k := rapid.IntRange(1, 3).Draw(t, "ntok")
+			for j := 0; j < k; j++ {
+				seg = append(seg, genToken(t, e)...)
+			}
+		}
+		c.Segs = append(c.Segs, seg)
+	}
+	return c
+}
+
+func epochProp(c EpochCase) error {
+	e, err := info(c.Entry)
+	if err != nil {
+		return err
+	}
+	in, err := e.decoder("UTF-8")
+	if err != nil {
+		return fmt.Errorf("harness: %v", err)
+	}
+	for i, seg := range c.Segs {
+		var got []tcell.Event
+		var left int
+		if perr := pbt.Safe(func() error {
+			evs, _ := in.Scan(seg, false)
+			got = append(got, evs...)
+			evs, left = in.Scan(nil, true)
+			got = append(got, evs...)
+			return nil
+		}); perr != nil {
+			return perr
+		}
+		want, err := run(e, "UTF-8", [][]byte{seg})
+		if err != nil {
+			return err
+		}
+		// which mouse buttons are held is state that rightly outlives a timeout
+		// (a drag lasts longer than 50 ms); it belongs to C12, not here
+		gotEv, wantEv := noButtons(inref.FromAll(got)), noButtons(want.evs)
+		if left != 0 || !inref.Equal(gotEv, wantEv) {
+			return fmt.Errorf("%s: segment %d %q after earlier segments %q (each followed by an expired escape timeout) decodes to %s (%d left); on a fresh decoder it decodes to %s", c.Entry, i, seg, c.Segs[:i], inref.Show(inref.FromAll(got)), left, inref.Show(want.evs))
+		}
+	}
+	return nil
+}
+
+func noButtons(evs []inref.Ev) []inref.Ev {
+	out := append([]inref.Ev{}, evs...)
+	for i := range out {
+		if out[i].Kind == "mouse" {
+			out[i].Btn = 0
+		}
+	}
+	return out
+}
+
 // ---------------------------------------------------------------- production timer path
 
 // TimerCase: bytes that end in an incomplete sequence are sent through a real
@@ -456,8 +539,9 @@ func embedProp(c EmbedCase) error {
 // timer expires the buffered bytes must come out, exactly as the synchronous
 // hook's expiring scan delivers them.
 type TimerCase struct {
-	Entry string `json:"entry"`
-	Data  []byte `json:"data"`
+	Entry   string `json:"entry"`
+	Data    []byte `json:"data"`
+	Polling bool   `json:"polling_tty"` // the tty's Read returns (0, nil) every few ms while idle
 }
 
 func timerProp(c TimerCase) error {
@@ -473,6 +557,9 @@ func timerProp(c TimerCase) error {
 	cp := *e.TI
 	cp.PadChar = ""
 	tty := faketty.New(80, 24)
+	if c.Polling {
+		tty.IdleZeroRead = 4 * time.Millisecond
+	}
 	s, err := tcell.NewTerminfoScreenFromTtyTerminfo(tty, &cp)
 	if err != nil {
 		return fmt.Errorf("harness: %v", err)
@@ -500,7 +587,7 @@ func timerProp(c TimerCase) error {
 		got = append(got, inref.From(s.PollEvent()))
 	}
 	if !inref.Equal(got, want.evs) {
-		return fmt.Errorf("%s: %q through the real screen (50 ms escape timer) delivered %s within 3s, the expiring scan gives %s", c.Entry, c.Data, inref.Show(got), inref.Show(want.evs))
+		return fmt.Errorf("%s (polling tty: %v): %q through the real screen (50 ms escape timer) delivered %s within 3s, the expiring scan gives %s", c.Entry, c.Polling, c.Data, inref.Show(got), inref.Show(want.evs))
 	}
 	return nil
 }
@@ -528,8 +615,13 @@ func timerSweep(t *testing.T) {
 			if !sw.Mine(item) {
 				continue
 			}
-			c := TimerCase{Entry: en, Data: []byte(d)}
-			sw.Case(true, pbt.HashStr("timer", en, d), func() any { return c }, pbt.Safe(func() error { return timerProp(c) }), nil)
+			for _, polling := range []bool{false, true} {
+				if polling && item%3 != 0 {
+					continue
+				}
+				c := TimerCase{Entry: en, Data: []byte(d), Polling: polling}
+				sw.Case(true, pbt.HashStr("timer", en, d, fmt.Sprint(polling)), func() any { return c }, pbt.Safe(func() error { return timerProp(c) }), nil)
+			}
 		}
 	}
 }
@@ -647,12 +739,21 @@ func liveProp(c LiveCase) error {
 func TestProp(t *testing.T) {
 	defer pbt.Recover(t)
 	loadEntries()
-	pbt.Describe("partition: rapid byte strings (token grammar: keys of the entry's real key table, SGR/X11 mouse reports, paste brackets, focus reports, OSC 52 replies with BEL/ST and valid/invalid base64, UTF-8 text, lone ESC, control and invalid bytes, sequence prefixes; mutated tokens; arbitrary bytes) x registered entries x charsets x read partitions (incl. every byte alone), decoded by the production collectEventsFromInput through the synchronous verif hook: one read + expiry vs the partition + expiry must give equal events, zero leftover, no panic, no stall; embed: text A + one complete recognised token + text B with expected events computed independently (runes of A, the token's event, runes of B); live-reads: complete tokens (more than both internal queues hold) delivered in many tty reads through a real screen with its goroutines while the application defers polling, compared with the synchronous decode of the whole string; timer-flush: inputs ending in an incomplete sequence sent through a real screen (fake tty, real goroutines): once the production 50 ms escape timer expires the buffered bytes must come out exactly as the expiring scan of the hook delivers them. Non-trivial = >= 2 chunks with a cut strictly inside a multi-byte token; distinct = hash of the case.",
+	pbt.Describe("partition: rapid byte strings (token grammar: keys of the entry's real key table, SGR/X11 mouse reports, paste brackets, focus reports, OSC 52 replies with BEL/ST and valid/invalid base64, UTF-8 text, lone ESC, control and invalid bytes, sequence prefixes; mutated tokens; arbitrary bytes) x registered entries x charsets x read partitions (incl. every byte alone), decoded by the production collectEventsFromInput through the synchronous verif hook: one read + expiry vs the partition + expiry must give equal events, zero leftover, no panic, no stall; embed: text A + one complete recognised token + text B with expected events computed independently (runes of A, the token's event, runes of B); epochs: several input segments on one decoder, each followed by an expiry of the escape timeout, must decode like the same segments on fresh decoders (no bytes and no modifier state survive an expiry); live-reads: complete tokens (more than both internal queues hold) delivered in many tty reads through a real screen with its goroutines while the application defers polling, compared with the synchronous decode of the whole string; timer-flush: inputs ending in an incomplete sequence sent through a real screen (fake tty, real goroutines): once the production 50 ms escape timer expires the buffered bytes must come out exactly as the expiring scan of the hook delivers them. Non-trivial = >= 2 chunks with a cut strictly inside a multi-byte token; distinct = hash of the case.",
 		"no escape timeout expires between the chunks of one case (the hook scans synchronously); one expiring scan ends every case",
 		"what a malformed sequence decodes to is unspecified: only partition independence, zero leftover and no panic/stall apply to it",
 		"a scan that does not return within 10 s counts as a stall")
 	pbt.Check(t, "partition", pbt.Pick(40000, 600000), pbt.Spec[Case]{Gen: genCase, Prop: prop, NonTrivial: nonTrivial, Classes: classes})
 	timerSweep(t)
+	pbt.Check(t, "epochs", pbt.Pick(20000, 300000), pbt.Spec[EpochCase]{Gen: genEpoch, Prop: epochProp,
+		NonTrivial: func(c EpochCase) bool {
+			for _, s := range c.Segs[:len(c.Segs)-1] {
+				if len(s) > 0 && s[len(s)-1] == 0x1b || bytes.HasSuffix(s, []byte("\x1b[")) {
+					return true
+				}
+			}
+			return false
+		}})
 	pbt.Check(t, "live-reads", pbt.Pick(120, 3000), pbt.Spec[LiveCase]{Gen: genLive, Prop: liveProp,
 		NonTrivial: func(c LiveCase) bool { return len(c.Tokens) > 25 && len(c.PerRd) > 3 && c.Defer }})
 	pbt.Check(t, "embed", pbt.Pick(15000, 200000), pbt.Spec[EmbedCase]{Gen: genEmbed, Prop: embedProp,
